@@ -606,3 +606,37 @@ def open_qcow2_meta(files, opaque, p):
 @register("qcow2_snapshots")
 def open_qcow2_snaps(files, opaque, p):
     return _QcowMetaProbe(files, p)
+
+
+class _HvTreeProbe:
+    def __init__(self, files, p):
+        self.files, self.p = files, p
+
+    def tree(self):
+        from dissect.hypervisor.descriptor import hyperv
+
+        hf = hyperv.HyperVFile(self.files["img"])
+        nodes = []
+
+        def visit(parent, d):
+            for key, ent in d.items():
+                val = None
+                if ent.table.offset == 0x4000 and ent.type != hyperv.KeyDataType.Node:
+                    try:
+                        val = ent.value
+                    except ValueError:
+                        val = "<unknown file object>"
+                    if isinstance(val, bool):
+                        val = int(val)
+                    if isinstance(val, (bytes, memoryview)):
+                        val = bytes(val).hex()
+                nodes.append([ent.table.offset, parent, key, val])
+                visit(ent.table.offset, ent.children)
+
+        visit(None, hf.root)
+        return dict(first_header=hf.header is hf.headers[0], nodes=sorted(nodes, key=lambda x: x[0]))
+
+
+@register("hyperv_tree")
+def open_hv_tree(files, opaque, p):
+    return _HvTreeProbe(files, p)
